@@ -127,6 +127,25 @@ pub fn c14a_case(ex: &mut Expander, tape: &Vec<u32>, st: &mut Stats) -> Result<(
             p.contract.overrides.push(k);
         }
     }
+    // several forwarded attributes per message kind, interleaved with those of other kinds
+    // (markers 2000.. are unique, so each must survive in both declaration orders)
+    if t.chance(50) {
+        let mut next = 2000u32;
+        let kinds = [Kind::Instantiate, Kind::Exec, Kind::Query, Kind::Sudo];
+        for _ in 0..(2 + t.pick(4)) {
+            next += 1;
+            let k = kinds[t.pick(kinds.len())];
+            p.contract.msg_attrs.push((k, svmodel::MsgAttr::Marker(next)));
+        }
+        for i in p.interfaces.iter_mut() {
+            for _ in 0..t.pick(4) {
+                next += 1;
+                let k = Kind::ENUMS[t.pick(3)];
+                i.msg_attrs.push((k, svmodel::MsgAttr::Marker(next)));
+            }
+        }
+        st.class("dense-msg-attrs");
+    }
     let (q, moved) = twin(&p, &mut t);
     st.class(if reply { "family:reply" } else { "family:msg" });
     for m in &moved {
